@@ -230,7 +230,7 @@ def gen_layout(rng, tname=None):
             return 3
         if it[0] == "bytes":
             return len(it[1])
-        if it[0] == "assume":
+        if it[0] in ("assume", "phase", "dephase"):
             return 0
         return it[1]
     pos = [0]
@@ -261,6 +261,13 @@ def gen_layout(rng, tname=None):
             out.append(it)
     if org + total > 0xFFF0:
         org = 0x100
+    if rng.chance(0.25) and len(out) >= 3:
+        # part of the program is assembled for another address than it is loaded at: labels in there have their execution
+        # address, padding and page decisions follow it too
+        i = rng.randint(0, len(out) - 2)
+        j = rng.randint(i + 1, len(out))
+        out[j:j] = [("dephase",)]
+        out[i:i] = [("phase", rng.choice([1, 3, 16, 255, 256, 4096, 2, 0x801]))]
     lay = {"target": t.name, "org": org, "items": [list(x) if not isinstance(x, list) else x for x in out], "nlab": nlab}
     if rng.chance(0.3):
         # some labels live in a SECTION of their own and are reached from outside through PUBLIC (plain name) or GLOBAL
@@ -308,6 +315,10 @@ def render(lay):
             L.append("\talign %d" % it[1])
         elif k == "assume":
             L.append("\tassume %s:%d" % (getattr(t, "assume", "dpr"), it[1]))
+        elif k == "phase":
+            L.append("\tphase %s+%d" % ("*" if t.name in ("6502", "65ce02", "6809", "68hc11", "68000") else "$", it[1]))
+        elif k == "dephase":
+            L.append("\tdephase")
     # reference table of every label
     for i in range(lay["nlab"]):
         L.append("\t%s %s" % (t.word, nm(i)))
@@ -343,10 +354,11 @@ def decode(lay, img):
         return v - (1 << bits) if v & (1 << (bits - 1)) else v
 
     items = list(lay["items"]) + [["dataref", i, 2] for i in range(lay["nlab"])]
+    ph = 0
     dpr = 0  # direct page in force: 0 at the start of the file, then what the last ASSUME above the statement said
     for idx, it in enumerate(items):
         k = it[0]
-        if t.align == 2 and (a & 1) and k in ("ref", "dataref", "label", "selfref", "pcref"):
+        if t.align == 2 and ((a + ph) & 1) and k in ("ref", "dataref", "label", "selfref", "pcref"):
             # automatic padding before word-sized objects (pad byte is emitted as 0 or reserved)
             a += 1
         if k == "label":
@@ -354,7 +366,7 @@ def decode(lay, img):
             m = rd(a, 4)
             if m != [MARK[0], MARK[1], it[1], 255 - it[1]]:
                 raise DecodeError("marker of l%d not found at $%x (found %s)" % (it[1], a, m))
-            labels[it[1]] = a
+            labels[it[1]] = a + ph
             a += 4
         elif k == "fill":
             a += it[1]
@@ -364,16 +376,20 @@ def decode(lay, img):
                 raise DecodeError("data bytes at $%x are %s, source says %s" % (a, got, it[1]))
             a += len(it[1])
         elif k == "align":
-            a = (a + it[1] - 1) // it[1] * it[1]
+            a = (a + ph + it[1] - 1) // it[1] * it[1] - ph  # ALIGN works on the execution address
         elif k == "assume":
             dpr = it[1]
+        elif k == "phase":
+            ph = it[1]  # PHASE *+n: execution address = load address + n until DEPHASE
+        elif k == "dephase":
+            ph = 0
         elif k == "dataref":
             w = it[2]
             refs.append((idx, "data word", val(rd(a, w)), it[1], a))
             a += w
         elif k in ("selfref", "pcref"):
             # the word must hold its own address (= the label moved behind any padding, resp. the PC)
-            labels[("self", idx)] = a
+            labels[("self", idx)] = a + ph
             refs.append((idx, "data self-reference" if k == "selfref" else "data PC-reference", val(rd(a, 2)), ("self", idx), a))
             a += 2
         elif k == "ref":
@@ -383,20 +399,20 @@ def decode(lay, img):
             if t.name == "68000" and forms[0][1] == "b68":
                 op = rd(a, 2)
                 if op == [0x4E, 0x71]:  # documented: Bcc to the next instruction becomes NOP
-                    refs.append((idx, "%s (as NOP)" % mn, a + 2, it[2], a))
+                    refs.append((idx, "%s (as NOP)" % mn, a + 2 + ph, it[2], a))
                     a += 2
                     done = True
                 elif op[0] == forms[0][0][0]:
                     if op[1] == 0:
                         d = s(val(rd(a + 2, 2)), 16)
-                        refs.append((idx, "%s.w" % mn, (a + 2 + d) & 0xFFFFFFFF, it[2], a))
+                        refs.append((idx, "%s.w" % mn, (a + 2 + d + ph) & 0xFFFFFFFF, it[2], a))
                         a += 4
                     elif op[1] == 0xFF:
                         d = s(val(rd(a + 2, 4)), 32)
-                        refs.append((idx, "%s.l" % mn, (a + 2 + d) & 0xFFFFFFFF, it[2], a))
+                        refs.append((idx, "%s.l" % mn, (a + 2 + d + ph) & 0xFFFFFFFF, it[2], a))
                         a += 6
                     else:
-                        refs.append((idx, "%s.s" % mn, a + 2 + s(op[1], 8), it[2], a))
+                        refs.append((idx, "%s.s" % mn, a + 2 + s(op[1], 8) + ph, it[2], a))
                         a += 2
                     done = True
             else:
@@ -417,18 +433,18 @@ def decode(lay, img):
                             a = p + 4
                         elif kind == "pcx8":
                             # brief extension word: the displacement byte counts from the extension word's address
-                            refs.append((idx, "%s d8(PC,Xn)" % mn, (p - 1 + s(rd(p, 1)[0], 8)) & 0xFFFFFFFF, it[2], a))
+                            refs.append((idx, "%s d8(PC,Xn)" % mn, (p - 1 + s(rd(p, 1)[0], 8) + ph) & 0xFFFFFFFF, it[2], a))
                             a = p + 1
                         elif kind == "pcw":
-                            refs.append((idx, "%s d16(PC)" % mn, (p + s(val(rd(p, 2)), 16)) & 0xFFFFFFFF, it[2], a))
+                            refs.append((idx, "%s d16(PC)" % mn, (p + s(val(rd(p, 2)), 16) + ph) & 0xFFFFFFFF, it[2], a))
                             a = p + 2
                             if mn == "movem.pc":
                                 pass
                         elif kind == "r8":
-                            refs.append((idx, "%s rel8" % mn, (p + 1 + s(rd(p, 1)[0], 8)) & 0xFFFF, it[2], a))
+                            refs.append((idx, "%s rel8" % mn, (p + 1 + s(rd(p, 1)[0], 8) + ph) & 0xFFFF, it[2], a))
                             a = p + 1
                         elif kind == "r16":
-                            refs.append((idx, "%s rel16" % mn, (p + 2 + s(val(rd(p, 2)), 16)) & 0xFFFF, it[2], a))
+                            refs.append((idx, "%s rel16" % mn, (p + 2 + s(val(rd(p, 2)), 16) + ph) & 0xFFFF, it[2], a))
                             a = p + 2
                         done = True
                         break
